@@ -78,16 +78,30 @@ def run_case(case):
         if m < eps:
             stop = n
             break
-    res = target.solve(s, cap)
-    it = int(res.info.iteration)
     exp = stop if stop is not None else cap
     avgc = case["spec"].get("avg") or "discounted"
+    split = None
+    if case["case_id"] % 3 == 1 and exp >= 3:
+        # the same run as two solve() calls: the first ends at its limit shortly before the documented stop (history
+        # and index must carry over), at an iteration that is not a multiple of period + 1
+        split = max(1, exp - 1 - (case["case_id"] // 3) % max(p, 1))
+        if split % (p + 1) == 0 and split > 1:
+            split -= 1
+        r1 = target.solve(s, split)
+        if int(r1.info.iteration) != split:
+            return dict(status="violation", kind="stop-decision",
+                        detail=f"period={p} g={g} eps={eps:.6g} [{avgc}]: solve({split}) returned at iteration {int(r1.info.iteration)}; "
+                               f"the documented rule gives {'stop at ' + str(stop) if stop else 'no stop within ' + str(cap)}")
+        res = target.solve(s, cap - split)
+    else:
+        res = target.solve(s, cap)
+    it = int(res.info.iteration)
     if it < p and stop is not None and it != exp:
         return dict(status="violation", kind="stop-before-period",
                     detail=f"period={p} g={g}: stopped at iteration {it} < period")
     if it != exp:
         return dict(status="violation", kind="stop-decision",
-                    detail=f"period={p} g={g} eps={eps:.6g} [{avgc}]: solver stopped at iteration {it}, the "
+                    detail=f"period={p} g={g} eps={eps:.6g} [{avgc}]{' [run split into solve(%d) + solve(%d)]' % (split, cap - split) if split else ''}: solver stopped at iteration {it}, the "
                            f"documented rule gives {'stop at ' + str(stop) if stop else 'no stop within ' + str(cap)} "
                            f"(reference measure at {min(it, traj.n)}: {traj.meas[min(it, traj.n)]}, "
                            f"at {exp}: {traj.meas[exp]})")
@@ -143,7 +157,7 @@ def run_case(case):
     stopc = "stopped" if stop is not None else "no-stop"
     return dict(status="ok", nontrivial=True, iteration=it, wraps=wraps, gain_ratio=gain_ratio,
                 cls=[avgc, f"p{p}", f"g={g}", stopc, "wraps>=5" if wraps >= 5 else "wraps<5",
-                     "cleared" if cleared else "kept"],
+                     "cleared" if cleared else "kept", "two-calls" if split else "one-call"],
                 batch_shape=list(shape), n_pad=n_pad)
 
 
